@@ -1,0 +1,30 @@
+//! Instrumentation for external verification tooling (feature `verif-hooks`, off by default).
+//!
+//! Records every evaluation of the position arithmetic that maps a markdown source position inside a doc
+//! comment back to an offset in the schema source.
+
+use std::cell::RefCell;
+
+/// One call of `BrokenDocLink::linecol_to_index`.
+#[derive(Debug, Clone)]
+pub struct LineColRecord {
+    /// `(span_inner().start, value_inner())` of every doc string of the comment.
+    pub docs: Vec<(usize, String)>,
+    pub line: usize,
+    pub column: usize,
+    pub end: bool,
+    pub result: Option<usize>,
+}
+
+thread_local! {
+    static LINECOL_LOG: RefCell<Vec<LineColRecord>> = const { RefCell::new(Vec::new()) };
+}
+
+pub(crate) fn record_linecol(record: LineColRecord) {
+    LINECOL_LOG.with(|log| log.borrow_mut().push(record));
+}
+
+/// Takes the records made on this thread since the last call.
+pub fn take_linecol_log() -> Vec<LineColRecord> {
+    LINECOL_LOG.with(|log| std::mem::take(&mut *log.borrow_mut()))
+}
